@@ -205,6 +205,7 @@ var specC31 = vstat.Spec[c31Case]{
 	Gen:         genC31,
 	Check:       checkC31,
 	Inflight:    true,
+	Confirm:     true,
 }
 
 func TestC31(t *testing.T)       { vstat.Check(t, specC31) }
@@ -504,6 +505,7 @@ var specC31c = vstat.Spec[c31cCase]{
 	Gen:      genC31c,
 	Check:    checkC31c,
 	Inflight: true,
+	Confirm:  true,
 }
 
 func TestC31Controller(t *testing.T)       { vstat.Check(t, specC31c) }
@@ -542,6 +544,7 @@ var specC32c = vstat.Spec[c31cCase]{
 		return o
 	},
 	Inflight: true,
+	Confirm:  true,
 }
 
 func TestC32Controller(t *testing.T)       { vstat.Check(t, specC32c) }
